@@ -19,7 +19,7 @@ for pid in sorted(PROPS):
         quick_cmd='./check %s --tier quick' % pid,
         thorough_cmd='./check %s --tier thorough' % pid,
         evidence_file='evidence/%s.json' % pid,
-        replay_cmd_template='./replay {path}',
+        replay_cmd_template='./show-replay {path}',
         engine='contracts',
         level_claimed=dict(category='proof', text=c['level_text'], design_ref=c.get('design_ref', 'DESIGN.md §4')),
         level_note=c['level_note'],
